@@ -267,8 +267,9 @@ def _enc_params(s, with_tl):
     return p
 
 
-def _dec_call(env, s, ct, iv, aad, tag):
-    """-> ('ok', plaintext) | ('err', text)"""
+def _dec_call(env, s, ct, iv, aad, tag, tl=None):
+    """-> ('ok', plaintext) | ('err', text).  tl: a Tag Length parameter to put into the Decrypt
+    request (server level only)."""
     _, E = _mods()
     if s["lvl"] == "d":
         try:
@@ -282,7 +283,10 @@ def _dec_call(env, s, ct, iv, aad, tag):
         return "ok", pt
     c = env.client(s.get("v", (1, 4)))
     uid = _enc_uid(env, c, s)
-    r = c.one({"op": "Decrypt", "uid": uid, "params": _enc_params(s, False), "data": ct.hex(),
+    params = _enc_params(s, False)
+    if tl is not None:
+        params["tag_length"] = tl
+    r = c.one({"op": "Decrypt", "uid": uid, "params": params, "data": ct.hex(),
                "iv": None if iv is None else iv.hex(),
                "aad": None if aad is None else aad.hex(),
                "tag": None if tag is None else tag.hex()})
@@ -398,6 +402,15 @@ def case_enc(env, s):
             if st == "ok":
                 out.fail("gcm-accepts-modified-" + part,
                          "bit %d of %s flipped, decrypt returned %s" % (bit, part, _short(pt)))
+            if part == "tag" and s["lvl"] == "s" and len(tag) > 4:
+                # the request may also state a Tag Length: whatever it says, a modified tag
+                # must not yield the plaintext
+                for tl in sorted(set([len(tag) - 4, 4, len(tag)])):
+                    st, pt = _dec_call(env, s, c2, i2, a2, t2, tl=tl)
+                    if st == "ok":
+                        out.fail("gcm-accepts-modified-tag|tag-length-parameter",
+                                 "bit %d of the %d byte tag flipped, Decrypt with Tag Length %d "
+                                 "returned %s" % (bit, len(tag), tl, _short(pt)))
     return out
 
 
